@@ -191,6 +191,58 @@ func runC21(c *Ctx) {
 
 	r5 := c.Rule("R5", "a slot update never disturbs the other slots of its block: every caller of writeBlockRegionPayload rewrites the image it read from the same file and offset under the current hold of the block lock (shared with C22.R6)", 2)
 	rmwRule(c, r5)
+	r6 := c.Rule("R6", "findOneFileRegion locates by id in both modes: every success return lies behind a `logical id == id` match, or in the branch taken when there is no further segment file - a free slot (or a short file) met on the way is not an answer while the id may still live further on", 3)
+	{
+		f := w.Fn(kHMfindOne)
+		g := w.G(f)
+		c.Analysed(f)
+		info := f.Pkg.TypesInfo
+		defs := localDefs(f)
+		idP := f.Obj.Type().(*types.Signature).Params().At(3)
+		type edge struct {
+			n  *GNode
+			br int
+		}
+		var accept []edge
+		nMatch, nEnd := 0, 0
+		for _, cn := range g.Nodes {
+			if !cn.IsCond || cn.Ast == nil {
+				continue
+			}
+			e, _ := cn.Ast.(ast.Expr)
+			if e == nil {
+				continue
+			}
+			if be, ok := e.(*ast.BinaryExpr); ok && be.Op == token.EQL && (mentionsObj(info, be.X, idP) || mentionsObj(info, be.Y, idP)) &&
+				(w.mentionsDeep(f, defs, be.X, nil, "encoding.HandleEncoder.UnmarshalLogicalID") || w.mentionsDeep(f, defs, be.Y, nil, "encoding.HandleEncoder.UnmarshalLogicalID")) {
+				accept = append(accept, edge{cn, 1})
+				nMatch++
+				continue
+			}
+			if id, ok := e.(*ast.Ident); ok && w.mentionsDeep(f, defs, id, nil, "fs.fileDirectIO.fileExists") {
+				accept = append(accept, edge{cn, 2}) // `!fileExists`
+				nEnd++
+				continue
+			}
+			if be, ok := e.(*ast.BinaryExpr); ok && be.Op == token.LSS && w.mentionsCall(f, be.Y, "fs.hashmap.getSegmentFileSize") {
+				accept = append(accept, edge{cn, 1})
+				nEnd++
+			}
+		}
+		c.Check(nMatch >= 2, r6, "findOneFileRegion: id match tests present", f.Decl.Pos(), fmt.Sprintf("%d", nMatch), fmt.Sprintf("found %d `lid == id` tests (ideal slot and block scan expected)", nMatch), nil)
+		c.Check(nEnd >= 1, r6, "findOneFileRegion: end-of-segments branch present", f.Decl.Pos(), fmt.Sprintf("%d", nEnd), "no test for a missing / short segment file", nil)
+		cut := func(from *GNode, e Edge) bool {
+			for _, a := range accept {
+				if from == a.n && e.Cond == a.br {
+					return true
+				}
+			}
+			return false
+		}
+		offs := g.ReachableWithout(cut, func(n *GNode) bool { return n.Ret != nil && g.ClassifyReturn(n) != RetNonNil })
+		c.Offences(g, offs, r6, "findOneFileRegion: a location is returned only for the id's own record or after all segment files were searched", f.Decl.Pos(), "success returns lie behind `lid == id` or the no-further-segment branch",
+			"in write mode the search answers with the first free slot (an empty ideal slot, an empty slot in the block, a short file) although the id may be stored further on - in a later slot or a later segment file, where it was put when those places were taken: Update then stores a second copy, Remove deletes only one of them or fails with `can't delete a missing item`, and Get serves the stale copy")
+	}
 	r4 := c.Rule("R4", "fetch skips only 'id not found' and returns every other error", 1)
 	{
 		f := w.Fn("fs.hashmap.fetch")
